@@ -359,10 +359,66 @@ def r4_netmask_total(cx):
     cx.floor("netmask-sites", st["sites"], 3, "panic-capable sites in parse_ip_netmask")
 
 
+# options whose values are split at commas by the argument parser: their values cannot contain a comma by syntax
+# (base-62 keys, cipher names, CIDR claims, socket addresses).  Hook command lines and peer host names can.
+DELIMITED_OPTIONS = {"trusted-keys", "algorithms", "claims", "advertise-addresses"}
+MULTI_OPTIONS = DELIMITED_OPTIONS | {"peers", "hook"}
+
+
+def r5_argument_values_verbatim(cx):
+    """"The value given on the command line wins": the value must reach merge_args as it was typed.  The derive macro
+    turns the attributes of `struct Args` into a chain of clap builder calls per option; the chain is read back from
+    the generated `augment_clap` and compared with the reviewed multiplicity table: only the options whose values
+    cannot contain a comma are split at commas (`use_delimiter` / `value_delimiter` / `require_delimiter`), and every
+    list-valued option may be given several times (`multiple`) so that its values accumulate."""
+    prog = cx.prog
+    ac = [b for b in prog.bodies if b.path.endswith("StructOptInternal>::augment_clap") and "config::Args" in b.path]
+    if len(ac) != 1:
+        raise AnchorError("Args::augment_clap not found")
+    b = ac[0]
+    cx.touch(b)
+
+    def sconst(op):
+        o = origin(b, op)
+        if o[0] == "const":
+            return o[1].get("str", o[1].get("v"))
+        return None
+    chains = {}
+    cur = None
+    bi = 0
+    seen = set()
+    while bi is not None and bi not in seen:
+        seen.add(bi)
+        t = b.blocks[bi]["term"]
+        if t["k"] == "call" and t.get("callee"):
+            pth = t["callee"].get("path", "")
+            m = pth.split("::")[-1]
+            if "clap::Arg" in pth:
+                if m == "with_name":
+                    cur = sconst(t["args"][0])
+                    chains[cur] = []
+                elif cur is not None:
+                    chains[cur].append((m, [sconst(a) for a in t["args"][1:]]))
+            bi = t.get("target")
+        elif t["k"] in ("goto", "drop", "assert"):
+            bi = t["target"]
+        else:
+            bi = None
+    cx.floor("options", len(chains), 30, "options built by Args::augment_clap")
+    delimited = {n for n, ch in chains.items() if any(m in ("use_delimiter", "require_delimiter") and a and a[0] == 1 for m, a in ch) or any(m == "value_delimiter" for m, a in ch)}
+    multi = {n for n, ch in chains.items() if any(m == "multiple" and a and a[0] == 1 for m, a in ch)}
+    extra = sorted(x for x in delimited - DELIMITED_OPTIONS if x is not None)
+    cx.check("comma-splitting-only-where-reviewed", not extra and None not in delimited, site_of(b),
+             "values are split at commas only for %s (found additionally: %s)" % (sorted(DELIMITED_OPTIONS), extra))
+    missing = sorted(MULTI_OPTIONS - multi)
+    cx.check("list-options-repeatable", not missing, site_of(b), "every list-valued option can be given several times (missing: %s)" % missing)
+
+
 RULES = [
     ("C20.R1", r1_precedence, "precedence by construction: default, then file, then arguments, then run"),
     ("C20.R2", r2_field_flow_matrix, "field-flow matrix of merge_file / merge_args / into_config_file; overwrite vs accumulate"),
     ("C20.R4", r4_netmask_total, "parse_ip_netmask is total"),
+    ("C20.R5", r5_argument_values_verbatim, "option values reach merge_args as typed: comma splitting and repeatability as reviewed (clap builder chain of Args)"),
 ]
 
 LEVEL_TEXT = ("Static field-flow and ordering rules on MIR: main builds the configuration as default -> merge_file -> merge_args -> run on one "
